@@ -530,7 +530,17 @@ ENC_UNIT = U("C10.jwt_encode", "jwt_encode -> write_js (libjwt/jwt-encode.c)", E
     stubs=["stubs/libc.c", "stubs/ghost.c", "stubs/alloc.c", "stubs/jansson.c", "stubs/b64_shape.c", "stubs/encode_env.c"],
     defines=["VERIF_TU_JWT_ENCODE", "VERIF_NO_STRCPY", "VERIF_NO_STRLEN", "VJ_MAX_STR=0x1000000"], flags=["--conversion-check"],
     expect=["contract_C10_jwt_encode\\.postcondition\\.3", "strcat\\.assertion", "verif_sprintf3\\.assertion", "jwt_sign\\.assertion"], timeout=900)
-P["C10"] = {"property": "C10", "level": "proof", "units": [gen_top(), ENC_UNIT,
+HEAD_UNIT = U("C10.jwt_head_setup", "jwt_head_setup (libjwt/jwt-encode.c)", ENCODE_C, "contracts/jwt_encode_c.h",
+    "jwt_t *j; jwt_head_setup(j);", "jwt_head_setup/contract_C10_jwt_head_setup",
+    stubs=["stubs/libc.c", "stubs/ghost.c", "stubs/head_env.c"], defines=["VERIF_TU_JWT_ENCODE"], flags=[],
+    expect=["contract_C10_jwt_head_setup\\.postcondition\\.11", "jwt_header_set\\.assertion\\.1", "contract_C10_jwt_head_setup\\.postcondition\\.10"], timeout=300)
+ALGSTR_UNIT = U("C10.jwt_alg_str", "jwt_alg_str (libjwt/jwt.c)", JWT_C, "contracts/jwt_c.h", "jwt_alg_t a; jwt_alg_str(a);", "jwt_alg_str/contract_C05_jwt_alg_str",
+    stubs=JWT_STUBS, defines=["VERIF_TU_JWT"], flags=[], expect=["contract_C05_jwt_alg_str\\.postcondition\\.1"], timeout=300)
+P["C10"] = {"property": "C10", "level": "proof", "units": [gen_top(), ENC_UNIT, HEAD_UNIT, ALGSTR_UNIT,
+    U("C10.jwt_encode_str", "jwt_encode_str (libjwt/jwt-encode.c)", ENCODE_C, "contracts/jwt_encode_c.h", "jwt_t *j; jwt_encode_str(j);",
+      "jwt_encode_str/contract_C10_jwt_encode_str", replace=["jwt_encode/contract_rec_jwt_encode"], assumed_contracts=["jwt_encode/contract_rec_jwt_encode"],
+      stubs=["stubs/libc.c", "stubs/ghost.c", "stubs/alloc.c"], defines=["VERIF_TU_JWT_ENCODE"], flags=[],
+      expect=["contract_C10_jwt_encode_str\\.postcondition\\.2", "contract_rec_jwt_encode\\.precondition"], timeout=300),
     cfg_unit("C10", "BUILDER", "jwt_builder_time_offset", "contract_C10_jwt_builder_time_offset",
              "jwt_builder_t *b; jwt_claims_t c; time_t s; jwt_builder_time_offset(b, c, s);", dict(R_CFG, args=["fn=offset"])),
     cfg_unit("C10", "BUILDER", "jwt_builder_enable_iat", "contract_C10_jwt_builder_enable_iat",
@@ -544,6 +554,17 @@ for _side, _fn in (("BUILDER", "jwt_builder_new"), ("CHECKER", "jwt_checker_new"
     P["C17"]["units"].append(U("C17.%s" % _fn, "%s (libjwt/jwt-common.c)" % _fn, common_tu(_side), "contracts/jwt_common_c.h",
         "%s();" % _fn, "%s/contract_C17_cmd_new" % _fn, stubs=LIBC + ["stubs/alloc.c", "stubs/jansson.c"], defines=["VERIF_TU_" + _side],
         flags=[], expect=["contract_C17_cmd_new\\.postcondition\\.2"], timeout=300))
+MEM_C = "libjwt/jwt-memory.c"
+def mem_unit(fn, body, expect_n):
+    return U("C17.%s" % fn, "%s (libjwt/jwt-memory.c)" % fn, MEM_C, "contracts/jwt_memory_c.h", "MEM_TAKE_ADDRESSES; " + body,
+             "%s/contract_C17_%s" % (fn, fn), stubs=["stubs/memory_env.c"], defines=["VERIF_TU_JWT_MEMORY"], flags=[],
+             expect=["contract_C17_%s\\.postcondition\\.%d" % (fn, expect_n)], timeout=300)
+P["C17"]["units"] += [
+    mem_unit("jwt_malloc", "size_t n; jwt_malloc(n);", 1),
+    dict(mem_unit("__jwt_freemem", "void *p; __jwt_freemem(p);", 1), expect=["contract_user_free\\.precondition", "free\\.precondition"]),
+    mem_unit("jwt_set_alloc", "jwt_malloc_t m; jwt_free_t f; jwt_set_alloc(m, f);", 2),
+    mem_unit("jwt_get_alloc", "jwt_malloc_t *m; jwt_free_t *f; jwt_get_alloc(m, f);", 2),
+]
 P["C03"]["units"].append(gen_top())
 P["C14"]["units"].append(gen_top())
 for _p in ("C01", "C02", "C03", "C04", "C06", "C09", "C14"):
@@ -616,6 +637,16 @@ P["C08"]["units"] += [
 P["C09"]["units"] += [dict(jwkp_unit("C07", "openssl_process_rsa"), name="C09.openssl_process_rsa"),
                       dict(P["C08"]["units"][0], name="C09.process_octet")]
 
+_REC_DOERS = ["__getter/contract_rec___getter", "__setter/contract_rec___setter", "__deleter/contract_rec___deleter"]
+for _w in ("header_get", "header_set", "claim_get", "claim_set"):
+    P["C15"]["units"].append(U("C15.jwt_%s" % _w, "jwt_%s -> __run_it (libjwt/jwt-setget.c)" % _w, SETGET_C, "contracts/jwt_setget_c.h",
+        "jwt_t *j; jwt_value_t *v; jwt_%s(j, v);" % _w, "jwt_%s/contract_C15_jwt_%s" % (_w, _w), replace=_REC_DOERS, assumed_contracts=_REC_DOERS,
+        stubs=LIBC, flags=[], expect=["contract_C15_jwt_%s\\.postcondition\\.3" % _w, "contract_rec___[gs]etter\\.precondition"], timeout=300))
+for _w in ("header_del", "claim_del"):
+    P["C15"]["units"].append(U("C15.jwt_%s" % _w, "jwt_%s (libjwt/jwt-setget.c)" % _w, SETGET_C, "contracts/jwt_setget_c.h",
+        "jwt_t *j; const char *f; jwt_%s(j, f);" % _w, "jwt_%s/contract_C15_jwt_%s" % (_w, _w), replace=_REC_DOERS, assumed_contracts=_REC_DOERS,
+        stubs=LIBC, flags=[], expect=["contract_C15_jwt_%s\\.postcondition\\.2" % _w], timeout=300))
+
 # ---------------------------------------------------------------------------
 # cross-listing: a unit decides a clause every property that depends on that function needs
 # (modular verification: each property's list must contain every function between the
@@ -665,6 +696,9 @@ share("C18", ["TOP.jwt_checker_verify", "TOP.jwt_builder_generate", "C01.all.jwt
               "C01.openssl_sign_sha_hmac", "C01.openssl_verify_sha_pem", "C05.openssl_sign_sha_pem", "C05.jwt_ec_d2i",
               "C01.gnutls_sign_sha_hmac", "C01.gnutls_verify_sha_pem", "C05.gnutls_sign_sha_pem", "C10.jwt_encode",
               "C14.jwt_parse_head", "C14.jwt_parse_payload", "C06.bounded.jwt_parse_N12", "C16.bounded.read_N3"])
+share("C10", ["C15.jwt_claim_set", "C15.jwt_header_set", "C15.__setter"])
+share("C17", ["C15.jwt_claim_set", "C15.jwt_header_set", "C10.jwt_head_setup", "C10.jwt_encode_str", "C17.jwt_malloc", "C17.__jwt_freemem", "C17.jwt_set_alloc"])
+share("C04", ["C15.jwt_claim_get"])
 share("C09", ["C08.jwk_process_values"])
 share("C07", ["C08.jwk_process_values", "C08.jwk_key_op_j", "C08.process_octet"])
 
